@@ -10,6 +10,18 @@
   -- below is the proved negation, for every such fragment), so only arrival orders whose first
   -- fragment is fragment 0 reassemble: `reassemble_any_order_partial`. Known finding
   -- `order:first-arrival-not-fragment-0`.
+
+  Scope notes (from an adversarial review of these statements, see DESIGN.md Appendix B.5):
+  * duplicate arrivals: the any-order theorems take an arrival order WITHOUT repetitions of a
+    fragment that is still needed (each needed position once); a duplicate of an already stored
+    position is accepted by `cluster.add` and counted, so m arrivals containing a duplicate can
+    complete a group with a hole (the harness feeds duplicates only after completion, scenario 5).
+    Not proved either way; recorded as open.
+  * `sweep_decrements` / `sweep_keeps_active` are one-step facts about `markSweepFrags`; "a stale
+    group is gone after fragMaxMisses sweeps" and "sweeps between arrivals do not disturb a transfer
+    that is fed" are their evident iterations and are exercised by the differential run (sweeps
+    interleaved with arrivals), not stated as run-level theorems.
+  * `split_one_job`: the Job number drawn for a Job-less packet is a parameter of `withJob`.
 -/
 import XMT.FragMap
 namespace XMT.Props.C02
